@@ -244,9 +244,10 @@ class TranslatorZ3(Translator):
                 else:
                     raise NotImplementedError("Unsupported OP yet: %s" % expr.op)
         elif expr.op == 'parity':
-            arg = z3.Extract(7, 0, res)
+            nbits = min(8, expr.args[0].size)
+            arg = z3.Extract(nbits - 1, 0, res)
             res = z3.BitVecVal(1, 1)
-            for i in range(8):
+            for i in range(nbits):
                 res = res ^ z3.Extract(i, i, arg)
         elif expr.op == '-':
             res = -res
